@@ -56,6 +56,11 @@ class Executor(Ops2):
             self.run_path(st)
             self.end_path(st, 'done', '')
         except NeedFork as nf:
+            try:
+                self.flush_asserts(st)
+            except PathEnd as pe:
+                self.end_path(st, pe.kind, pe.info)
+                return
             self.stats['forks'] += 1
             base_dec = st.decisions[:st.dpos]
             st.pending_known = []
@@ -93,6 +98,11 @@ class Executor(Ops2):
         return [f.fn['name'] for f in st.frames[-8:]]
 
     def end_path(self, st, kind, info):
+        if kind != 'infeasible' and st.pending_asserts:
+            try:
+                self.flush_asserts(st)
+            except PathEnd:
+                pass
         self.stats['paths'] += 1
         self.stats['steps'] += st.nsteps
         self.ends[kind] += 1
@@ -217,9 +227,53 @@ class Executor(Ops2):
 
     # ---------- assertions ----------
     def record_assert(self, st, label, cond, is_panic=False, extra=None):
+        """harness assertions are staged and decided together at the next change of the path
+        condition (fork, assume, path end): one query for a run of assertions, individual
+        queries only if the joint query is not unsat."""
+        c = simp_bool(cond)
+        if c is True:
+            a = self.asserts.setdefault(label, dict(checked=0, proved=0, violations=[], unknown=0, panic=is_panic))
+            a['checked'] += 1
+            a['proved'] += 1
+            return True
+        if is_panic or c is False:
+            self.flush_asserts(st)
+            return self.decide_assert(st, label, c, is_panic, extra)
+        st.pending_asserts.append((label, c))
+        return None
+
+    def flush_asserts(self, st):
+        pend = st.pending_asserts
+        if not pend:
+            return
+        st.pending_asserts = []
+        if len(pend) > 1:
+            disj = z3.Or([z3.Not(c) for (_, c) in pend])
+            hit = st.model is not None and z3.is_true(st.model.eval(disj, model_completion=True))
+            if not hit:
+                r, m = self.check(disj, st)
+                if r == 'unsat':
+                    for (label, c) in pend:
+                        a = self.asserts.setdefault(label, dict(checked=0, proved=0, violations=[], unknown=0, panic=False))
+                        a['checked'] += 1
+                        a['proved'] += 1
+                    if self.opts.get('log_queries') and len(self.queries_log) < self.opts.get('max_logged', 40):
+                        self.log_query(st, disj, '|'.join(sorted(set(l for l, _ in pend)))[:200], r)
+                    return
+        for (label, c) in pend:
+            ok = self.decide_assert(st, label, c, False, None)
+            if ok is not True:
+                # continue under the assumption that the assertion holds
+                r, m = self.check(c, st)
+                if r == 'unsat':
+                    raise PathEnd('assumed-away')
+                st.model = m
+                self.solver.add(c)
+                st.pc.append(c)
+
+    def decide_assert(self, st, label, c, is_panic=False, extra=None):
         a = self.asserts.setdefault(label, dict(checked=0, proved=0, violations=[], unknown=0, panic=is_panic))
         a['checked'] += 1
-        c = simp_bool(cond)
         if c is True:
             a['proved'] += 1
             return True
